@@ -224,6 +224,7 @@ contract(A + "optimize", params=dict(task="Task", mode="opt[str]", workers="opt[
          decreases={"loop1": "self._config.max_cycles - " + CC},
          ghost_out={"best_index": "lambda z: sigma(self._population, None, 0)"},
          ensures=[
+             ("seeded-with-the-task-seed-before-any-draw", "seeded_with(task.seed)"),
              ("one-generation-and-rate-per-cycle", "len(result.evolution) == len(result.rates) + 1 and"
                                                    " 1 <= len(result.rates) <= self._config.max_cycles"),
              ("stops-when-a-criterion-holds", "Stop(self, len(result.rates), result.rates)"),
